@@ -1,5 +1,6 @@
 import BFL.Proofs.Bounds
 import BFL.Proofs.BoundsSigma
+import BFL.Proofs.BoundsCorr
 /-
 C14 — no operation reads or writes outside its matrices or mixes incompatible sizes.
 
@@ -265,5 +266,64 @@ theorem safe_unscented_transform_measurement_model (additive : Bool) (K : Nat) (
 
 example : spValid 2 ⟨1, 2, true, 2⟩ := by decide
 example : utValid 2 ⟨2, 1, true, 1⟩ 6 ⟨1, 1, true, 0⟩ 5 0 := by decide
+
+/-! ## correction steps -/
+
+/-- KFCorrection::correctStep + getLikelihood, any dimensions and component counts. -/
+theorem safe_kf_correct (I : Layout) (K : Nat) (C : Layout) (cK hm hn ysize : Nat) (mvalid : Bool)
+    (h : kfValid I K C cK hm hn ysize) : (kfCase I K C cK hm hn ysize mvalid).Safe := by
+  unfold kfCase
+  split
+  · simp
+  · simp only [safe_bind, safe_pure, and_true]
+    exact kfCorrect_safe I K C cK hm hn ysize mvalid h
+
+/-- UKFCorrection (generic and additive constructors): correctStep + getLikelihood are consistent whenever the
+    shapes match the declared descriptions AND neither the state nor the measurement has quaternion components.
+    PARTIAL: the full statement `ukfValid → Safe` is false, see the two counterexamples below. -/
+theorem safe_ukf_correct_partial (additive : Bool) (I : Layout) (K : Nat) (C : Layout) (cK : Nat) (M : MMod)
+    (h : ukfValid additive I K C cK M) (hs : ukfSupported I M) : (ukfCase additive I K C cK M).Safe := by
+  unfold ukfCase
+  simp only [safe_bind, safe_pure, and_true]
+  exact ukfCorrect_safe additive I K C cK M h hs
+
+/-- witness: 1 linear + 1 quaternion state, 2 linear measurements, additive model — all shapes as declared -/
+def ukfQuatStateWitness : MMod := ⟨⟨1, 1, true, 2⟩, ⟨2, 0, false, 0⟩, 2, 0, 2, 2, 2, true, true, true⟩
+/-- Known finding `ukf-quaternion-state`: `corr_state.mean(i) = pred_state.mean(i) + K * innovation` adds a
+    `dim`-vector and a `dim_covariance`-vector. -/
+theorem unsafe_ukf_quaternion_state_counterexample :
+    ukfValid true ⟨1, 1, true, 0⟩ 2 ⟨1, 1, true, 0⟩ 2 ukfQuatStateWitness ∧
+    ¬ (ukfCase true ⟨1, 1, true, 0⟩ 2 ⟨1, 1, true, 0⟩ 2 ukfQuatStateWitness).Safe := by decide
+
+/-- witness: 3 linear states, one quaternion measurement (4 numbers, 3 degrees of freedom) -/
+def ukfQuatMeasWitness : MMod := ⟨⟨3, 0, false, 3⟩, ⟨0, 1, true, 0⟩, 4, 0, 3, 4, 3, true, true, true⟩
+/-- Known finding `ukf-quaternion-measurement`: `Pxy.middleCols(meas_size*i, meas_size)` uses `total_size()` (4)
+    where the cross covariance has `dof` (3) columns per component. -/
+theorem unsafe_ukf_quaternion_measurement_counterexample :
+    ukfValid true ⟨3, 0, false, 0⟩ 2 ⟨3, 0, false, 0⟩ 2 ukfQuatMeasWitness ∧
+    ¬ (ukfCase true ⟨3, 0, false, 0⟩ 2 ⟨3, 0, false, 0⟩ 2 ukfQuatMeasWitness).Safe := by decide
+
+/-- SUKFCorrection: any measurement size and sub-size (non-dividing sizes leave the belief untouched), reduced or full
+    noise covariance.  PARTIAL: quaternion states excluded, see the counterexample. -/
+theorem safe_sukf_correct_partial (I : Layout) (K : Nat) (C : Layout) (cK : Nat) (M : MMod) (sub : Nat) (reduced : Bool)
+    (h : sukfValid I K C cK M sub reduced) (hs : sukfSupported I) : (sukfCase I K C cK M sub reduced).Safe := by
+  unfold sukfCase
+  simp only [safe_bind, safe_pure, and_true]
+  exact sukfCorrect_safe I K C cK M sub reduced h hs
+
+def sukfQuatStateWitness : MMod := ⟨⟨1, 1, true, 2⟩, ⟨4, 0, false, 0⟩, 4, 0, 4, 4, 2, true, true, true⟩
+/-- Known finding `sukf-quaternion-state`: sigma blocks sized by `pred_state.dim` instead of `dim_covariance`. -/
+theorem unsafe_sukf_quaternion_state_counterexample :
+    sukfValid ⟨1, 1, true, 0⟩ 2 ⟨1, 1, true, 0⟩ 2 sukfQuatStateWitness 2 true ∧
+    ¬ (sukfCase ⟨1, 1, true, 0⟩ 2 ⟨1, 1, true, 0⟩ 2 sukfQuatStateWitness 2 true).Safe := by decide
+
+/-- a measurement whose size is not a multiple of the sub-size is refused without any matrix operation -/
+example : (sukfCase ⟨3, 0, false, 0⟩ 2 ⟨3, 0, false, 0⟩ 2 ⟨⟨3, 0, false, 4⟩, ⟨4, 0, false, 0⟩, 4, 0, 4, 4, 4, true, true, true⟩ 3 false).val
+    = some (corrCopy ⟨3, 0, false, 0⟩ 2).tokens := by decide
+
+example : ukfValid false ⟨2, 1, false, 0⟩ 2 ⟨2, 1, false, 0⟩ 2 ⟨⟨2, 1, false, 2⟩, ⟨1, 1, false, 0⟩, 2, 0, 2, 2, 2, true, true, true⟩ ∧
+    ukfSupported ⟨2, 1, false, 0⟩ ⟨⟨2, 1, false, 2⟩, ⟨1, 1, false, 0⟩, 2, 0, 2, 2, 2, true, true, true⟩ := by decide
+example : sukfValid ⟨2, 1, false, 0⟩ 2 ⟨2, 1, false, 0⟩ 2 ⟨⟨2, 1, false, 2⟩, ⟨4, 0, false, 0⟩, 4, 0, 4, 4, 2, true, true, true⟩ 2 true := by decide
+example : kfValid ⟨3, 0, false, 0⟩ 2 ⟨3, 0, false, 0⟩ 2 2 3 2 := by decide
 
 end BFL.Bounds
